@@ -265,6 +265,7 @@ struct Run<'a> {
     ids: BTreeMap<(u64, u64, u64), String>,
     reqs: Vec<ReqInfo>,
     hub_gone: bool,
+    hub_gone_at: Option<usize>,
     stop_seen: bool,
     timing_bad: bool,
     r: &'a mut ImplRun,
@@ -352,6 +353,7 @@ impl<'a> Run<'a> {
                 }
                 if self.rig.hub_finished() {
                     self.hub_gone = true;
+                    self.hub_gone_at = Some(op_idx);
                     if let Some(h) = self.rig.hub.take() {
                         match h.join() {
                             Ok(Ok(_)) => {}
@@ -428,8 +430,11 @@ impl<'a> Run<'a> {
         // timing sanity: a deadline task must not be near its real deadline
         // unless the model time says it is long past it
         for q in self.reqs.iter() {
-            if q.verb.has_deadline() && q.task.is_some() && q.finals.is_empty() && q.age <= T_UNITS - 3 && !self.hub_gone {
-                if q.sent_at.elapsed() > Duration::from_millis(UNIT_MS * T_UNITS - 80) {
+            // (a request answered during THIS op counts too: the answer may be the
+            // real deadline firing while the model clock is still far from it)
+            let open_before_this_op = q.finals.first().map(|f| f.1 >= op_idx).unwrap_or(true);
+            if q.verb.has_deadline() && q.task.is_some() && open_before_this_op && q.age <= T_UNITS - 3 && self.hub_gone_at.map(|g| g >= op_idx).unwrap_or(true) {
+                if q.sent_at.elapsed() > Duration::from_millis(UNIT_MS * T_UNITS - 150) {
                     self.timing_bad = true;
                     self.r.tags.push(format!("timing:task-aged-{}ms-at-model-age-{}", q.sent_at.elapsed().as_millis() / 100 * 100, q.age));
                 }
@@ -788,6 +793,7 @@ fn run_case(ops: &[String], r: &mut ImplRun) -> bool {
         ids: BTreeMap::new(),
         reqs: vec![],
         hub_gone: false,
+        hub_gone_at: None,
         stop_seen: false,
         timing_bad: false,
         r,
@@ -1118,7 +1124,9 @@ fn gen_case(rng: &mut Rng, thorough: bool) -> Vec<String> {
         // a short pause now and then, never into the grey zone before the deadline
         if !holding && rng.chance(1, 8) {
             let n = rng.range(1, 3);
-            if pend.iter().all(|p| !p.deadline || p.age + n <= T_UNITS - 3) {
+            // (at most half of the timeout is slept before the deadline jump: the
+            // other half is slack for the real time the other steps take under load)
+            if pend.iter().all(|p| !p.deadline || p.age + n <= T_UNITS - 5) {
                 ops.push(format!("adv {n}"));
                 for p in pend.iter_mut() {
                     p.age += n;
